@@ -228,6 +228,7 @@ pub fn cmd_splits(args: &[String]) {
             if len <= m2 {
                 for i in 0..=len {
                     rep.evaluations += 1;
+                    rep.distinct_extra += 1;
                     if let Err(d) = run_split(ifc, &ctx, &msg, &[i], &expect, &tables) { fail(&[i], d, &mut rep); }
                 }
             }
@@ -235,6 +236,7 @@ pub fn cmd_splits(args: &[String]) {
                 for i in 0..=len {
                     for j in i..=len {
                         rep.evaluations += 1;
+                        rep.distinct_extra += 1;
                         if let Err(d) = run_split(ifc, &ctx, &msg, &[i, j], &expect, &tables) { fail(&[i, j], d, &mut rep); }
                     }
                 }
